@@ -101,6 +101,10 @@ struct GenBuf : std::streambuf {
 					else if (n == 1 && rng.chance(0.05)) v = rng.below(256);
 					else if (pKind == verif::K_ENUM && rng.chance(0.7)) v = rng.below(8); // enumerators select branches: spread over the small values
 					else v = smallCount();
+					// flag words keep fields in their upper bits (NBT method in the top nibble of the 16-bit geometry data flags,
+					// shader flags): now and then the top nibble is populated as well
+					if (n == 2 && rng.chance(0.06)) v |= uint64_t(rng.below(16)) << 12;
+					else if (n == 4 && rng.chance(0.02)) v |= uint64_t(rng.below(16)) << 28;
 					memcpy(p, &v, n);
 					lastInt = v;
 					return;
